@@ -174,7 +174,9 @@ func c12Replay(cj []byte) []ev.Violation {
 		panic(err)
 	}
 	if c.PrefixLen == 0 {
+		// a case found by the fixpoint search holds the history only: the recovery suffix is appended here
 		c.PrefixLen = len(c.Events)
+		c.Events = append(append([]string{}, c.Events...), c12Suffix(c.Cfg)...)
 	}
 	sig, msg, _ := runC12(c)
 	if sig == "" {
@@ -186,7 +188,43 @@ func c12Replay(cj []byte) []ev.Violation {
 var sinkNames = map[byte]string{'m': "motion", 'c': "const", 't': "test"}
 var callNames = map[byte]string{'k': "check", 's': "start", 'w': "write", 'x': "stop"}
 
+// c12FaultTokens: every frame event with one failing call kind on one sink, bad frames and resets with a failing stop.
+func c12FaultTokens() []string {
+	var out []string
+	for _, k := range []string{"1", "0"} {
+		for _, f := range []string{"fmk", "fms", "fmw", "fmx", "fcs", "fcw", "fcx", "fts", "ftw", "ftx"} {
+			out = append(out, k+f)
+		}
+	}
+	return append(out, "Bfmx", "Bfcx", "Rfmx")
+}
+
+// oracleC12State: protocol on the history so far, plus the recovery clause from this state.
+func oracleC12State(d *PDrv) (string, string) {
+	if sig, msg := oracleC12Protocol(d); sig != "" {
+		return sig, msg
+	}
+	n := len(d.tokens)
+	all := append(append([]string{}, d.tokens...), c12Suffix(d.cfg)...)
+	d2 := NewPDrv(PCase{Cfg: d.cfg, Events: all})
+	d2.Run(all)
+	if sig, msg := oracleC12Protocol(d2); sig != "" {
+		return sig, msg + " (during the fault-free suffix)"
+	}
+	return oracleC12Recovery(d2, n)
+}
+
 func c12Run(r *ev.Run) {
+	fixCfgs := []PCfg{
+		{FPS: 1, Preview: 1, Trigger: 1, Min: 1, Max: 2, Via: "raw", Constant: true},
+		{FPS: 1, Preview: 0, Trigger: 2, Min: 0, Max: 1, Via: "raw", Constant: true},
+	}
+	maxDev := 1
+	if r.Thorough() {
+		maxDev = 2
+		fixCfgs = append(fixCfgs, PCfg{FPS: 2, Preview: 1, Trigger: 1, Min: 1, Max: 1, Via: "raw", Constant: true}, PCfg{FPS: 1, Preview: 1, Trigger: 1, Min: 1, Max: 2, Via: "raw"})
+	}
+	runProcFixpoint(r, "faults", fixCfgs, []string{"1", "0", "B", "R", "T"}, c12FaultTokens(), maxDev, nil, oracleC12State, func(d *PDrv) string { return "" }, 600000)
 	L1, L2 := 6, 4
 	if r.Thorough() {
 		L1, L2 = 7, 6
@@ -202,7 +240,7 @@ func c12Run(r *ev.Run) {
 	if r.Thorough() {
 		cfgs = append(cfgs, PCfg{FPS: 1, Preview: 1, Trigger: 3, Min: 2, Max: 2, Via: "raw", Constant: true}, PCfg{FPS: 3, Preview: 1, Trigger: 1, Min: 1, Max: 1, Via: "raw"})
 	}
-	r.Rule = fmt.Sprintf("real MotionProcessor via Process with three monitored sinks; every event string over {1 motion frame, 0 still frame, B bad frame, R reset, T test-recording request} of length <=%d with every placement of one failing sink call (sink x {check,start,write,stop} x call index), and of length <=%d with every pair of failing calls; continuous recorder on and off; then a fault-free suffix (reset, cap+1 still frames, trigger motion frames, min+2 still frames) that must be recorded exactly as the reference predicts. Oracle: per-sink two-state protocol monitor, recovered panics, recovery clause. Non-trivial = execution in which a planned fault fired.", L1, L2)
+	r.Rule = fmt.Sprintf("real MotionProcessor via Process with three monitored sinks; every event string over {1 motion frame, 0 still frame, B bad frame, R reset, T test-recording request} of length <=%d with every placement of one failing sink call (sink x {check,start,write,stop} x call index), and of length <=%d with every pair of failing calls; continuous recorder on and off; then a fault-free suffix (reset, cap+1 still frames, trigger motion frames, min+2 still frames) that must be recorded exactly as the reference predicts. Plus an explicit-state search to a FIXPOINT over the same events with per-event failing calls (<=1 quick / <=2 thorough faults per history): histories of any length, so faults at the end of a 21-frame test recording or after many continuous files are covered, with the recovery clause evaluated from every reachable state. Oracle: per-sink two-state protocol monitor, recovered panics, recovery clause. Non-trivial = execution in which a planned fault fired.", L1, L2)
 	r.Bounds["depth_single_fault"] = L1
 	r.Bounds["depth_fault_pairs"] = L2
 	r.Bounds["configurations"] = len(cfgs)
@@ -528,6 +566,43 @@ func oracleC17Diff(d *PDrv) (string, string) {
 	return "", ""
 }
 
+// c17Summary: the request-free twin run's state (the differential oracle compares against it).
+func c17Summary(d *PDrv) string {
+	var noT []string
+	for _, t := range d.tokens {
+		if t[0] != 'T' {
+			noT = append(noT, t)
+		}
+	}
+	d2 := NewPDrv(PCase{Cfg: d.cfg, Events: noT})
+	d2.Run(noT)
+	return d.recSummary() + "|twin:" + d2.procKey()
+}
+
+func c13Summary(d *PDrv) string {
+	nb := withoutBad(d.tokens)
+	d2 := NewPDrv(PCase{Cfg: d.cfg, Events: nb})
+	d2.Run(nb)
+	// was a recording cut by a bad frame so far? (the differential oracle branches on it)
+	open, cut := false, false
+	for ev := range d.evKind {
+		if d.evKind[ev] == 'B' && open {
+			cut = true
+		}
+		for _, o := range d.log {
+			if o.Ev == ev && o.Src == 'm' {
+				if o.Call == 's' && o.OK {
+					open = true
+				}
+				if o.Call == 'x' {
+					open = false
+				}
+			}
+		}
+	}
+	return fmt.Sprintf("%s|cut=%v|twin:%s|%s", d.recSummary(), cut, d2.procKey(), d2.recSummary())
+}
+
 func c13Run(r *ev.Run) {
 	L, D := 10, 2
 	fps := []int{1}
@@ -535,7 +610,7 @@ func c13Run(r *ev.Run) {
 		L, D = 12, 3
 		fps = []int{1, 2}
 	}
-	r.Rule = fmt.Sprintf("processor level: every event string over {1,0} of length %d with at most %d bad frames (B) at any position relative to triggers, pre-trigger window, recordings and stops, through Process with the harness parser and with the real lepton3.ParseRawFrame on 4x4 frames, recorder lattice; continuous recorder and test recordings on in a second pass. Oracle: bad ids never reach a sink, Process reports BadFrameErr / nil, an open motion recording is stopped within the bad-frame event, differential against the stream with the bad frames deleted (same detection results; same sink trace when no recording was cut; C01/C02 formula after a cut). Parser level (Lepton big-endian): see parser_* counters. Non-trivial = execution with a recording.", L, D)
+	r.Rule = fmt.Sprintf("processor level: every event string over {1,0} of length %d with at most %d bad frames (B) at any position relative to triggers, pre-trigger window, recordings and stops, through Process with the harness parser and with the real lepton3.ParseRawFrame on 4x4 frames, recorder lattice; continuous recorder and test recordings on in a second pass. Oracle: bad ids never reach a sink, Process reports BadFrameErr / nil, an open motion recording is stopped within the bad-frame event, differential against the stream with the bad frames deleted (same detection results; same sink trace when no recording was cut; C01/C02 formula after a cut). Plus an explicit-state search to a FIXPOINT over {1,0,B} (any number of bad frames, streams of any length) for the fps-1 lattice, keyed on the pair (run, run with bad frames deleted). Parser level (Lepton big-endian): see parser_* counters. Non-trivial = execution with a recording.", L, D)
 	r.Bounds["depth"] = L
 	r.Bounds["max_bad_frames"] = D
 	var jobs []procJob
@@ -554,6 +629,13 @@ func c13Run(r *ev.Run) {
 	}
 	jobs = append(jobs, jobsFor(cons, []string{"1", "0"}, []string{"B", "T"}, L-2, D)...)
 	r.Bounds["configurations"] = len(procLattice(fps, "raw", "")) + len(lep) + len(cons)
+	c13Both := func(d *PDrv) (string, string) {
+		if s, m := oracleC13(d); s != "" {
+			return s, m
+		}
+		return oracleC13Diff(d, d.tokens)
+	}
+	runProcFixpoint(r, "bad_frames", procLattice([]int{1}, "raw", ""), []string{"1", "0", "B"}, nil, 0, nil, c13Both, c13Summary, 300000)
 	runProcJobs(r, jobs, []procOracle{oracleC13, func(d *PDrv) (string, string) { return oracleC13Diff(d, d.tokens) }}, hasRecording)
 	c13Parser(r)
 }
@@ -580,9 +662,23 @@ func c17Run(r *ev.Run) {
 			}
 		}
 	}
-	r.Rule = fmt.Sprintf("real MotionProcessor via Process, valid frames only: every prefix over {1,0,R} of length %d, then a test-recording request, one of %d tail patterns of 23 frames (still, continuous motion, alternating, bursts, resets), a second request and a second tail; continuous recorder on/off x {window open, window closed, motion sink behind a real ThrottledRecorder with an exhausted bucket}; max-secs 0..4, fps 1..3. Oracle: continuous sink = Start, exactly max-secs*fps+1 writes, Stop, repeated, concatenation = every frame once in order; test sink = exactly 21 consecutive frames from the next processed frame; motion-sink trace identical to the run without requests. Non-trivial = every execution (all contain two test recordings).", P, len(c17Tails))
+	r.Rule = fmt.Sprintf("real MotionProcessor via Process, valid frames only: every prefix over {1,0,R} of length %d, then a test-recording request, one of %d tail patterns of 23 frames (still, continuous motion, alternating, bursts, resets), a second request and a second tail; continuous recorder on/off x {window open, window closed, motion sink behind a real ThrottledRecorder with an exhausted bucket}; max-secs 0..4, fps 1..3. Plus an explicit-state search to a FIXPOINT over {1,0,R,T} with non-overlapping requests (streams of any length, a request at every offset relative to trigger, recording, stop and continuous-file boundary), keyed on the pair (run, request-free twin). Oracle: continuous sink = Start, exactly max-secs*fps+1 writes, Stop, repeated, concatenation = every frame once in order; test sink = exactly 21 consecutive frames from the next processed frame; motion-sink trace identical to the run without requests. Non-trivial = every execution (all contain two test recordings).", P, len(c17Tails))
 	r.Bounds["prefix_depth"] = P
 	r.Bounds["configurations"] = len(cfgs)
+	var fixCfgs []PCfg
+	for _, c := range cfgs {
+		if c.Throttle == nil && (c.FPS == 1 || r.Thorough()) {
+			fixCfgs = append(fixCfgs, c)
+		}
+	}
+	both := func(d *PDrv) (string, string) {
+		if s, m := oracleC17(d); s != "" {
+			return s, m
+		}
+		return oracleC17Diff(d)
+	}
+	noOverlap := func(d *PDrv, tok string) bool { return tok != "T" || !(d.mp.StartSnapshot || d.mp.SnapshotRecording) }
+	runProcFixpoint(r, "continuous_and_test", fixCfgs, []string{"1", "0", "R", "T"}, nil, 0, noOverlap, both, c17Summary, 400000)
 	type job struct {
 		cfg PCfg
 		pre string
